@@ -128,6 +128,8 @@ def mutual_program(rng, pid):
     f1_blocks = [{"succ": [2, 3], "stmts": []}, {"succ": [4], "stmts": base}, {"succ": [4], "stmts": rec}, {"succ": [], "stmts": []}]
     f2_blocks = [{"succ": [], "stmts": [{"op": "arith", "f": "sub", "x": Z, "y": X, "zk": 1, "z": dec},
                                         {"op": "call", "fn": "f1", "lhs": [Y], "args": [Z]}]}]
+    if rng.random() < 0.6:      # an assertion on the result of the recursive call, inside the non-head member of the cycle
+        f2_blocks[0]["stmts"].append({"op": "assert", "c": {"e": le(-rng.randint(-1, 1), [(rng.choice([1, -1]), Y)]), "r": "le"}, "id": 2})
     main_blocks = [{"succ": [2], "stmts": [{"op": "assign", "x": Z, "e": le(c)}, {"op": "call", "fn": "f1", "lhs": [W], "args": [Z]}]},
                    {"succ": [], "stmts": [{"op": "assert", "c": hist.cst(rng, [W, Z], rels=("le", "lt", "eq", "ne")), "id": 1}]}]
     funcs = [{"name": "main", "in": [], "out": [], "entry": 1, "exit": 2, "blocks": main_blocks},
